@@ -344,6 +344,14 @@ class CondPlugin(PrimitiveLeafPlugin):
         branch_ctx.builder.outputs = branch_outputs
 
         branch_graph = branch_ctx.builder.graph.clone(allow_outer_scope_values=True)
+        # The scratch graph is discarded from here on. Its nodes must not stay
+        # registered as consumers of the enclosing graph's values, or use-count
+        # based dead-code elimination keeps the producers of operands that no
+        # branch reads (proto/file exports then differ from return_mode="ir").
+        for scratch_node in list(branch_ctx.builder.graph):
+            for input_index, input_value in enumerate(scratch_node.inputs):
+                if input_value is not None:
+                    scratch_node.replace_input_with(input_index, None)
         branch_graph.name = ctx.fresh_name(prefix)
         branch_graph.inputs.clear()
         opset_imports = dict(branch_graph.opset_imports)
